@@ -46,6 +46,13 @@ Definition tev_eqb (a b : tev) : bool :=
   | _, _ => false
   end.
 
+Fixpoint list_eqb2 {A B} (eqb : A -> B -> bool) (x : list A) (y : list B) : bool :=
+  match x, y with
+  | [], [] => true
+  | a :: x', b :: y' => eqb a b && list_eqb2 eqb x' y'
+  | _, _ => false
+  end.
+
 Inductive c04_case :=
 (* the reports printed one after the other (bytes as printed by the harness' mirror of the
    printer), fed to TTYEventDecoder in chunks; the events it returned *)
@@ -59,7 +66,12 @@ Definition c04_check (c : c04_case) : bool * bool :=
       let model := fst (prod_decode bytes) in
       (nlist_eqb (concat (map print rs)) bytes && list_eqb tev_eqb model impl,
        (* property predicate: every well-formed self-delimiting report decodes to what it denotes *)
-       negb (forallb prod_wf rs) || list_eqb tev_eqb (map prod_denote rs) impl)
+       negb (forallb prod_wf rs)
+       || list_eqb2 (fun r ev => match r, ev with
+                                  | RSgr p, EFaceModify m => sgr_event_ok p m
+                                  | RSgr _, _ => false
+                                  | _, _ => tev_eqb (prod_denote r) ev
+                                  end) rs impl)
   | KBytes bytes impl =>
       (list_eqb tev_eqb (fst (prod_decode bytes)) impl, true)
   end.
